@@ -349,6 +349,20 @@ func (h *vH) apply(line string) (string, bool) {
 		if after := vDeep(h.idx); after != before {
 			h.flag("copy-independent", "original changed after mutating a copy")
 		}
+		// growing one copy must not show in another copy (nor, later, in the original): spare capacity of the original's
+		// slices must not be shared
+		c1, c2 := h.idx.Copy(), h.idx.Copy()
+		c1.childManifests = append(c1.childManifests, Descriptor{MediaType: MediaTypeOCI1Manifest, Digest: vdg(9001), Size: 1})
+		c1.Manifests = append(c1.Manifests, Descriptor{MediaType: MediaTypeOCI1Manifest, Digest: vdg(9001), Size: 1})
+		grown := vDeep(&c1)
+		c2.childManifests = append(c2.childManifests, Descriptor{MediaType: MediaTypeOCI1Manifest, Digest: vdg(9002), Size: 2})
+		c2.Manifests = append(c2.Manifests, Descriptor{MediaType: MediaTypeOCI1Manifest, Digest: vdg(9002), Size: 2})
+		if vDeep(&c1) != grown {
+			h.flag("copy-independent", "a copy changed when another copy of the same index grew (shared spare capacity)")
+		}
+		if after := vDeep(h.idx); after != before {
+			h.flag("copy-independent", "original changed after copies grew")
+		}
 		return "ok", true
 	case "CPX":
 		n, _ := strconv.Atoi(t[1])
